@@ -14,6 +14,7 @@ import (
 	"seehuhn.de/go/geom/matrix"
 	"seehuhn.de/go/geom/rect"
 	"seehuhn.de/go/postscript/afm"
+	"seehuhn.de/go/postscript/funit"
 	"seehuhn.de/go/postscript/type1"
 
 	"verif/harness/ev"
@@ -470,6 +471,96 @@ func TestP2Metrics(t *testing.T) {
 	})
 }
 
+// ---------------------------------------------------------------------------
+// (c) the rectangle helpers of package funit
+
+type rectsCase struct {
+	Rects [][4]int `json:"rects"` // LLx LLy URx URy
+}
+
+// checkRects folds the rectangles with Extend, in 16-bit and in integer
+// form, and compares with the union of those that are not the zero rectangle
+// ("leaves no marks": all four coordinates 0).
+func checkRects(c *rectsCase) string {
+	var want [4]int
+	first := true
+	for _, r := range c.Rects {
+		if r == [4]int{} {
+			continue
+		}
+		if first {
+			want, first = r, false
+			continue
+		}
+		want = [4]int{min(want[0], r[0]), min(want[1], r[1]), max(want[2], r[2]), max(want[3], r[3])}
+	}
+	var a funit.Rect16
+	var b funit.Rect
+	for _, r := range c.Rects {
+		r16 := funit.Rect16{LLx: funit.Int16(r[0]), LLy: funit.Int16(r[1]), URx: funit.Int16(r[2]), URy: funit.Int16(r[3])}
+		ri := funit.Rect{LLx: funit.Int(r[0]), LLy: funit.Int(r[1]), URx: funit.Int(r[2]), URy: funit.Int(r[3])}
+		if z := r == [4]int{}; r16.IsZero() != z || ri.IsZero() != z {
+			return fmt.Sprintf("IsZero(%v) = %v / %v, want %v", r, r16.IsZero(), ri.IsZero(), z)
+		}
+		a.Extend(r16)
+		b.Extend(ri)
+	}
+	if got := [4]int{int(a.LLx), int(a.LLy), int(a.URx), int(a.URy)}; got != want {
+		return fmt.Sprintf("funit.Rect16: Extend over %v gives %v, want the union %v", c.Rects, got, want)
+	}
+	if got := [4]int{int(b.LLx), int(b.LLy), int(b.URx), int(b.URy)}; got != want {
+		return fmt.Sprintf("funit.Rect: Extend over %v gives %v, want the union %v", c.Rects, got, want)
+	}
+	return ""
+}
+
+func TestP3Funit(t *testing.T) {
+	rec := ev.New("C19", "funit")
+	defer rec.Finish(t)
+	rec.Rule("funit.Rect16 and funit.Rect: sequences of 1-6 rectangles (ordinary boxes, single points on and off the origin, horizontal and vertical lines, the zero rectangle, coordinates -1000..1000 with corner values) folded with Extend from the zero value; oracle: IsZero is true exactly for the all-zero rectangle, and the fold equals the union (component-wise min/max) of the rectangles that are not the zero rectangle. Non-trivial: >= 2 non-zero rectangles, one of them degenerate (point or line); distinct by the sequence.")
+	ev.SetupRapid(60000, 2000000)
+	coord := rapid.OneOf(rapid.IntRange(-1000, 1000), rapid.SampledFrom([]int{0, 0, 1, -1, 100, -100, 32767, -32768}))
+	rapid.Check(t, func(t *rapid.T) {
+		n := rapid.IntRange(1, 6).Draw(t, "n")
+		c := &rectsCase{}
+		nonzero, degenerate := 0, false
+		for i := 0; i < n; i++ {
+			x, y := coord.Draw(t, "x"), coord.Draw(t, "y")
+			var r [4]int
+			switch rapid.IntRange(0, 5).Draw(t, "shape") {
+			case 0:
+				r = [4]int{}
+			case 1:
+				r = [4]int{x, y, x, y} // a point
+			case 2:
+				r = [4]int{x, y, x + rapid.IntRange(0, 500).Draw(t, "w"), y} // horizontal line
+			case 3:
+				r = [4]int{x, y, x, y + rapid.IntRange(0, 500).Draw(t, "h")}
+			default:
+				r = [4]int{x, y, x + rapid.IntRange(0, 500).Draw(t, "w"), y + rapid.IntRange(0, 500).Draw(t, "h")}
+			}
+			for k := range r {
+				r[k] = max(-32768, min(32767, r[k]))
+			}
+			if r != [4]int{} {
+				nonzero++
+				degenerate = degenerate || r[0] == r[2] || r[1] == r[3]
+			}
+			c.Rects = append(c.Rects, r)
+		}
+		rec.Eval(1)
+		if nonzero >= 2 && degenerate {
+			rec.NonTrivial(fmt.Sprint(c.Rects))
+		}
+		if rec.WantSample() && nonzero >= 3 {
+			rec.Sample(c)
+		}
+		if msg := ev.Safe(func() string { return checkRects(c) }); msg != "" {
+			rec.Fail(t, msg, map[string]any{"rects": c})
+		}
+	})
+}
+
 func TestReplay(t *testing.T) {
 	rc, err := ev.LoadReplay()
 	if err != nil {
@@ -481,6 +572,7 @@ func TestReplay(t *testing.T) {
 	var c struct {
 		Font    *fontCase    `json:"font"`
 		Metrics *metricsCase `json:"metrics"`
+		Rects   *rectsCase   `json:"rects"`
 	}
 	if err := json.Unmarshal(rc.Case, &c); err != nil {
 		t.Fatal(err)
@@ -491,6 +583,9 @@ func TestReplay(t *testing.T) {
 		}
 		if c.Metrics != nil {
 			return checkMetrics(c.Metrics)
+		}
+		if c.Rects != nil {
+			return checkRects(c.Rects)
 		}
 		return "empty replay case"
 	})
